@@ -482,12 +482,152 @@ def check(ctx):
     ctx.explanation = (
         "Decision tables obtained by abstract evaluation (partitioned dataflow, no execution): _do_merge is evaluated on symbolic features for "
         "every strategy and for the scenarios the property names (each fixed column differing, forced or not; overlapping attribute sets; several "
-        "candidates; a stored forced column that is already a joined set; the no-candidate path with its duplicates row); one pass of each "
-        "importer's line loop is evaluated for a colliding newcomer under every strategy and the statements it executes, with their bound values, "
-        "are compared with the prescribed effects (the GFF and GTF tables must be equal; discarded newcomers write no relations, kept ones all of "
-        "theirs under the final id). Structural: candidate query as a conjunctive query, constructor validation, who deletes relations on "
+        "candidates; a stored forced column that is already a joined set; the no-candidate path with its duplicates row); each "
+        "importer's line loop is evaluated against a model database (relational evaluator; real key collisions raise IntegrityError) for colliding "
+        "lines under every strategy -- error, warning, replace, create_unique with three arrivals, merge with equal columns, with forced columns "
+        "(also for an attribute-identical newcomer), with a differing column (fresh '<key>_1' and its duplicates row) and with a third arrival that "
+        "agrees with '<key>_1' -- and the stored rows, attributes and relations are compared with what the strategy prescribes. Structural: candidate query as a conjunctive query, constructor validation, who deletes relations on "
         "'replace'. Does not decide the outcome for every interleaving of collisions (history-dependent data).")
     sch = schema(ctx)
     dispatcher(ctx)
-    importers(ctx, sch)
+    r_scenario(ctx)
     structural(ctx, sch)
+
+
+# ------------------------------------------------------------------------------------------------ scenario rules
+def _collision_lines(gtf, second_over=None, third=None):
+    """A stored feature K, a colliding newcomer (same key; different attribute values and different parents) and optionally a third arrival."""
+    from . import scen
+    if gtf:
+        mk = lambda name, attrs, **kw: scen.feature(name, "exon", kw.pop("start", 10), kw.pop("end", 20), dict(attrs, exon_id=["K"]), **kw)
+        first = mk("F1", {"gene_id": ["g1"], "transcript_id": ["t1"], "a": ["v1"]})
+        second = mk("F2", {"gene_id": ["g2"], "transcript_id": ["t2"], "a": ["v2"], "b": ["v3"]}, **(second_over or {}))
+        out = [first, second]
+        if third is not None:
+            out.append(mk("F3", {"gene_id": ["g3"], "transcript_id": ["t3"], "a": ["v4"]}, **third))
+        return out
+    mk = lambda name, attrs, **kw: scen.feature(name, "exon", kw.pop("start", 10), kw.pop("end", 20), dict(attrs, ID=["K"]), **kw)
+    first = mk("F1", {"Parent": ["P1"], "a": ["v1"]})
+    second = mk("F2", {"Parent": ["P2"], "a": ["v2"], "b": ["v3"]}, **(second_over or {}))
+    out = [first, second]
+    if third is not None:
+        out.append(mk("F3", {"Parent": ["P3"], "a": ["v4"]}, **third))
+    return out
+
+
+def _links(gtf, f, child):
+    a = f.attrs["attributes"]
+    if gtf:
+        t, g = a["transcript_id"][0], a["gene_id"][0]
+        return {(t, child, 1), (g, child, 2), (g, t, 1)}
+    return {(p, child, 1) for p in a.get("Parent", [])}
+
+
+def r_scenario(ctx):
+    """Each importer's line loop evaluated on the model database for colliding lines under every strategy: the stored
+    features, their attributes and the relations are compared with what the strategy prescribes."""
+    from . import scen
+    keys = list(ctx.folder.const("constants", "_keys"))
+    for cls in ("_GFFDBCreator", "_GTFDBCreator"):
+        gtf = cls == "_GTFDBCreator"
+        m = require_func(ctx, "create.%s._populate_from_lines" % cls)
+        name = cls
+        extra = dict(id_spec={"exon": "exon_id"}) if gtf else {}
+
+        def run(strategy, lines, **kw):
+            im = scen.Import(ctx, cls, merge_strategy=strategy, **dict(extra, **kw))
+            t = im.call("_populate_from_lines", lines=list(lines))
+            rows = {}
+            for r in im.table("features", keys):
+                rows.setdefault(r[0], []).append(scen.decoded_row(r, keys))
+            return im, t, rows, set(im.table("relations"))
+        # ---- error
+        lines = _collision_lines(gtf)
+        im, t, rows, rel = run("error", lines)
+        ok = t.result[0] == "raise" and t.result[1] == "ValueError" and list(rows) == ["K"] and rows["K"][0]["attributes"].get("a") == ["v1"] and rel == _links(gtf, lines[0], "K")
+        ctx.ob("R1", ok, "%s: 'error' aborts the import with an exception, nothing is written for the newcomer" % name, func=m,
+               sig="%s: error aborts" % name if ok else "%s: error -> %s, rows %s" % (name, t.result[:2], sorted(rows)))
+        # ---- warning
+        lines = _collision_lines(gtf)
+        im, t, rows, rel = run("warning", lines)
+        ok = t.result[0] == "return" and list(rows) == ["K"] and rows["K"][0]["attributes"].get("a") == ["v1"] and "b" not in rows["K"][0]["attributes"]
+        ctx.ob("R1", ok, "%s: 'warning' keeps the first feature and ignores the later one" % name, func=m,
+               sig="%s: warning keeps the first" % name if ok else "%s: warning -> %s rows %s" % (name, t.result[:2], {k: [r["attributes"] for r in v] for k, v in rows.items()}))
+        leak = rel - _links(gtf, lines[0], "K")
+        ctx.ob("R5", not leak,
+               "%s: when a colliding newcomer is discarded ('warning': nothing is written for it) none of its Parent/transcript/gene links is inserted" % name,
+               func=m, sig="%s: relation insert reachable on the discard path of the collision handler" % name if leak else "%s: no relation insert on the discard path" % name,
+               detail=None if not leak else "relations of the ignored line stored: %s" % sorted(leak))
+        # ---- replace
+        lines = _collision_lines(gtf, second_over=dict(source="other", start=11))
+        im, t, rows, rel = run("replace", lines)
+        want = scen.expected_row(lines[1], keys)
+        ok = t.result[0] == "return" and list(rows) == ["K"] and len(rows["K"]) == 1 and all(rows["K"][0].get(k) == want[k] for k in keys)
+        ctx.ob("R1", ok, "%s: 'replace' keeps the last: the stored row becomes the newcomer" % name, func=m,
+               sig="%s: replace keeps the last" % name if ok else "%s: replace -> %s row %s" % (name, t.result[:2], rows.get("K")))
+        ok = _links(gtf, lines[1], "K") <= rel
+        ctx.ob("R5", ok, "%s: under 'replace' the newcomer's links are added under its id (no Parent link is lost or invented)" % name, func=m,
+               sig="%s: relation rows under replace: %s" % (name, sorted(rel)), nontrivial=False)
+        stale = {r for r in _links(gtf, lines[0], "K") if r[1] == "K"} - _links(gtf, lines[1], "K")
+        kept = stale & rel
+        ctx.ob("R5", not kept,
+               "%s: when 'replace' overwrites a stored feature, the relations that named the replaced feature as child are removed before the "
+               "newcomer's links are added (inline, in _replace, or in one sweep)" % name, func=m,
+               sig="%s: replace keeps the replaced row's relations (no DELETE FROM relations ... child)" % name if kept else
+               "%s: replaced row's relations are deleted" % name,
+               detail=None if not kept else "children(old parent) still lists the key after its feature was replaced by one with a different Parent: %s" % sorted(kept))
+        # ---- create_unique
+        lines = _collision_lines(gtf, third={})
+        im, t, rows, rel = run("create_unique", lines)
+        ok = t.result[0] == "return" and sorted(rows) == ["K", "K_1", "K_2"] and rows["K"][0]["attributes"].get("a") == ["v1"] and rows["K_1"][0]["attributes"].get("a") == ["v2"] \
+            and rows["K_2"][0]["attributes"].get("a") == ["v4"]
+        ctx.ob("R1", ok, "%s: 'create_unique' keeps all, later ones under '<key>_1', '<key>_2'" % name, func=m,
+               sig="%s: create_unique keeps all" % name if ok else "%s: create_unique -> %s rows %s" % (name, t.result[:2], sorted(rows)))
+        want_rel = _links(gtf, lines[0], "K") | _links(gtf, lines[1], "K_1") | _links(gtf, lines[2], "K_2")
+        ctx.ob("R5", rel == want_rel, "%s: under 'create_unique' each feature's links are recorded under its final id" % name, func=m,
+               sig="%s: create_unique relations as prescribed" % name if rel == want_rel else "%s: create_unique relations missing %s unexpected %s" % (name, sorted(want_rel - rel)[:3], sorted(rel - want_rel)[:3]))
+        # ---- merge, columns agree
+        lines = _collision_lines(gtf)
+        im, t, rows, rel = run("merge", lines)
+        a = rows.get("K", [{}])[0].get("attributes", {}) if rows.get("K") else {}
+        ok = t.result[0] == "return" and list(rows) == ["K"] and sorted(a.get("a", [])) == ["v1", "v2"] and a.get("b") == ["v3"] and \
+            all(sorted(a.get(k, [])) == sorted(set(lines[0].attrs["attributes"].get(k, [])) | set(lines[1].attrs["attributes"].get(k, []))) for k in set(lines[0].attrs["attributes"]) | set(lines[1].attrs["attributes"]))
+        ctx.ob("R3", ok, "%s: 'merge' unions the attribute values (without repeats) of features whose other columns agree, under the one key" % name, func=m,
+               sig="%s: merged attributes are the union" % name if ok else "%s: merge -> %s rows %s" % (name, t.result[:2], {k: [r["attributes"] for r in v] for k, v in rows.items()}))
+        want_rel = _links(gtf, lines[0], "K") | _links(gtf, lines[1], "K")
+        ctx.ob("R5", rel == want_rel, "%s: under 'merge' the newcomer's links are added under the merged key (no Parent link is lost or invented)" % name, func=m,
+               sig="%s: merge relations as prescribed" % name if rel == want_rel else "%s: merge relations missing %s unexpected %s" % (name, sorted(want_rel - rel)[:3], sorted(rel - want_rel)[:3]))
+        # ---- merge with forced columns: three arrivals with sources a, b, a
+        lines = _collision_lines(gtf, second_over=dict(source="b_src"), third=dict(source="src"))
+        im, t, rows, rel = run("merge", lines, force_merge_fields=["source"])
+        r0 = rows.get("K", [{}])[0]
+        ok = t.result[0] == "return" and list(rows) == ["K"] and r0.get("source") == "b_src,src" and sorted(r0.get("attributes", {}).get("a", [])) == ["v1", "v2", "v4"]
+        ctx.ob("R3", ok, "%s: a column named in force_merge_fields is exempt from the comparison and becomes the comma-joined set of the values seen (sources src, b_src, src)" % name, func=m,
+               sig="%s: forced column joined as a set" % name if ok else "%s: forced merge -> %s source %r attributes %s" % (name, t.result[:2], r0.get("source"), r0.get("attributes")))
+        # ...also when the newcomer repeats the stored attributes exactly (only the forced column differs)
+        lines = _collision_lines(gtf, second_over=dict(source="b_src"))
+        lines[1].attrs["attributes"] = {k: list(v) for k, v in lines[0].attrs["attributes"].items()}
+        im, t, rows, rel = run("merge", lines, force_merge_fields=["source", "strand"])
+        r0 = rows.get("K", [{}])[0]
+        ok = t.result[0] == "return" and list(rows) == ["K"] and r0.get("source") == "b_src,src" and r0.get("strand") == "+" and r0.get("attributes") == lines[0].attrs["attributes"]
+        ctx.ob("R3", ok, "%s: an exact repeat of the stored attributes still contributes its forced columns (sources src, b_src -> 'b_src,src'; equal strands stay '+')" % name, func=m,
+               sig="%s: forced columns of an attribute-identical newcomer joined" % name if ok else "%s: repeat merge -> %s source %r strand %r" % (name, t.result[:2], r0.get("source"), r0.get("strand")))
+        # without forcing, the same lines are not mergeable
+        lines = _collision_lines(gtf, second_over=dict(source="b_src"))
+        im, t, rows, rel = run("merge", lines)
+        dups = im.table("duplicates")
+        ok = t.result[0] == "return" and sorted(rows) == ["K", "K_1"] and rows["K"][0]["source"] == "src" and rows["K_1"][0]["source"] == "b_src" and dups == [("K", "K_1")]
+        ctx.ob("R4", ok, "%s: a newcomer differing in another column is not merged: it is filed under a fresh '<key>_1' and remembered in `duplicates`" % name, func=m,
+               sig="%s: non-mergeable newcomer filed under K_1" % name if ok else "%s: non-mergeable -> %s rows %s duplicates %s" % (name, t.result[:2], sorted(rows), dups))
+        want_rel = _links(gtf, lines[0], "K") | _links(gtf, lines[1], "K_1")
+        ctx.ob("R5", rel == want_rel, "%s: ...with its links under the fresh key" % name, func=m,
+               sig="%s: links of K_1 under K_1" % name if rel == want_rel else "%s: relations missing %s unexpected %s" % (name, sorted(want_rel - rel)[:3], sorted(rel - want_rel)[:3]), nontrivial=False)
+        # ---- a third arrival that agrees with the earlier '<key>_1' entry is merged into that entry
+        lines = _collision_lines(gtf, second_over=dict(source="b_src"), third=dict(source="b_src"))
+        im, t, rows, rel = run("merge", lines)
+        a1 = rows.get("K_1", [{}])[0].get("attributes", {}) if rows.get("K_1") else {}
+        want_rel = _links(gtf, lines[0], "K") | _links(gtf, lines[1], "K_1") | _links(gtf, lines[2], "K_1")
+        ok = t.result[0] == "return" and sorted(rows) == ["K", "K_1"] and sorted(a1.get("a", [])) == ["v2", "v4"] and rows["K"][0]["attributes"].get("a") == ["v1"] and rel == want_rel
+        ctx.ob("R5", ok, "%s: a newcomer merged into an earlier '<key>_n' entry has its attributes and its links recorded for that entry (not for '<key>')" % name, func=m,
+               sig="%s: merged into K_1" % name if ok else "%s: third arrival -> %s rows %s, K_1 attributes %s, relations missing %s unexpected %s" % (
+                   name, t.result[:2], sorted(rows), a1, sorted(want_rel - rel)[:3], sorted(rel - want_rel)[:3]))
